@@ -120,14 +120,17 @@ Proof.
 Qed.
 
 
-Lemma free_ev_heap v : f_heap (sfp_heap v) <> None -> s_blk v <> 0 ->
+(* the allocator instance al is the one that handed out the heap block of v *)
+Definition saok (al : nat) (v : svec) : Prop := al < NINST /\ (s_blk v <> 0 -> reenc al (s_blk v) = s_blk v).
+
+Lemma free_ev_heap al v : f_heap (sfp_heap v) <> None -> s_blk v <> 0 -> saok al v ->
   match f_heap (sfp_heap v) with
-  | None => free_ev (s_blk v) = []
-  | Some (b, n) => free_ev (s_blk v) = [EFree b] \/ free_ev (s_blk v) = [EDealloc b n] end.
+  | None => free_ev al (s_blk v) = []
+  | Some (b, n) => free_ev al (s_blk v) = [EFree b] \/ free_ev al (s_blk v) = [EDealloc b n] end.
 Proof.
-  intros Hh Hb. unfold sfp_heap, free_ev in *. destruct (is_small NI v); cbn [f_heap fp0] in *.
+  intros Hh Hb (_ & Ak). unfold sfp_heap, free_ev in *. destruct (is_small NI v); cbn [f_heap fp0] in *.
   - congruence.
-  - rewrite (proj2 (Nat.eqb_neq _ _) Hb). now left.
+  - rewrite (proj2 (Nat.eqb_neq _ _) Hb). left. now rewrite (Ak Hb).
 Qed.
 
 (* the heap block of a vector in heap mode is not null (read off the footprint's well-formedness) *)
@@ -138,44 +141,50 @@ Proof.
   destruct (D _ _ eq_refl) as (_ & Hz & _). exact Hz.
 Qed.
 
+Lemma STR_mono ls fs nb nb' : nb <= nb' -> STR ls fs nb -> STR ls fs nb'.
+Proof. intros H (T & G & E). split; [exact T|]. split; [eapply good_mono; eauto | exact E]. Qed.
+
 (* ---- _ensure_capacity *)
-Lemma s_grow ls fs nb r v l c : STR ls fs nb -> r < 3 -> SL r v fs -> sinv NI v l -> sz v ->
-  exists ls', ev_run ls (sgrow_evs esz NI nb (base_of NI r) c v l) = Some ls' /\
-    STR ls' (set2 fs r (sgrown NI nb c v l)) (grown_nb nb c (mk_vec 0 [] 0 (s_cap v))).
+Lemma s_grow ls fs al nb r v l c : STR ls fs (NINST * nb) -> r < 3 -> SL r v fs -> sinv NI v l -> sz v -> saok al v ->
+  exists ls', ev_run ls (sgrow_evs esz NI al (enc al nb) (base_of NI r) c v l) = Some ls' /\
+    STR ls' (set2 fs r (sgrown NI (enc al nb) c v l)) (NINST * grown_nb nb c (mk_vec 0 [] 0 (s_cap v))).
 Proof.
-  intros TRs Hr SLr H Z. pose proof TRs as (T & G & Esp). pose proof G as (Nz & _). pose proof H as (Hs & Hc & Hn & _).
-  pose proof SLr as (SA & SB).
+  intros TRs Hr SLr H Z Ak. pose proof TRs as (T & G & Esp). pose proof G as (Nz & _). pose proof H as (Hs & Hc & Hn & _).
+  pose proof SLr as (SA & SB). pose proof Ak as (Al & _).
   unfold sgrow_evs, sgrown, grown_nb. cbn [v_cap].
   destruct (Nat.leb c (s_cap v)) eqn:E.
   - exists ls. split; [reflexivity|]. eapply STR_ext; [apply (set2_same fs r v SLr) | exact TRs].
-  - apply Nat.leb_gt in E.
-    assert (Gsm : is_small NI (mk_sv (repeat None NI) nb (slots l (2 * c)) (length l) (2 * c)) = false).
+  - apply Nat.leb_gt in E. set (b := enc al nb).
+    assert (Bz : b <> 0) by (pose proof (enc_ge al nb); unfold b; lia).
+    assert (Gsm : is_small NI (mk_sv (repeat None NI) b (slots l (2 * c)) (length l) (2 * c)) = false).
     { unfold is_small. cbn [s_cap]. apply Nat.leb_gt. lia. }
     destruct (is_small NI v) eqn:Esm.
     + (* inline -> heap *)
-      rewrite (Z Esm). cbn [free_ev Nat.eqb]. rewrite app_nil_r.
+      rewrite (Z Esm). unfold free_ev. cbn [Nat.eqb]. rewrite app_nil_r.
       assert (H1 : 2 * r + 1 < SK) by (unfold SK; lia). assert (H0 : 2 * r < SK) by (unfold SK; lia).
-      destruct (fp_alloc SK ls fs nb (2 * r + 1) (2 * c) (esz * N.of_nat (2 * c))%N T G H1) as (l1 & E1 & T1 & G1).
+      destruct (fp_alloc SK ls fs (NINST * nb) b (2 * r + 1) (2 * c) (esz * N.of_nat (2 * c))%N T G H1) as (l1 & E1 & T1 & G1).
       { rewrite SB. unfold sfp_heap. now rewrite Esm. }
       { rewrite SB. unfold sfp_heap. now rewrite Esm. }
-      set (f1 := mk_fp nb 0 0 (2 * c) (Some (nb, (esz * N.of_nat (2 * c))%N))) in *.
+      { apply enc_ge. }
+      set (f1 := mk_fp b 0 0 (2 * c) (Some (b, (esz * N.of_nat (2 * c))%N))) in *.
       set (fs1 := set_reg fs (2 * r + 1) f1) in *.
       assert (F1a : fs1 (2 * r) = sfp_inl r v) by (unfold fs1; rewrite set_reg_other by lia; exact SA).
       assert (F1b : fs1 (2 * r + 1) = f1) by (unfold fs1; now rewrite set_reg_same).
-      destruct (fp_xfer SK l1 fs1 (S nb) (2 * r) (2 * r + 1) T1 G1 H0 H1) as (l2 & E2 & T2 & G2); [lia | now rewrite F1b | |].
+      destruct (fp_xfer SK l1 fs1 (S b) (2 * r) (2 * r + 1) T1 G1 H0 H1) as (l2 & E2 & T2 & G2); [lia | now rewrite F1b | |].
       { rewrite F1a, F1b. unfold sfp_inl. rewrite Esm. cbn [f_size f_lim f1]. lia. }
       rewrite F1a, F1b in E2, T2, G2. unfold sfp_inl in E2, T2, G2. rewrite Esm in E2, T2, G2.
       cbn [f_size f_nm f_k f_off f1] in E2, T2, G2. rewrite Hs in E2, T2, G2.
       set (fs2 := set_reg fs1 (2 * r + 1) (resize_fp f1 (length l))) in *.
       assert (F2a : fs2 (2 * r) = mk_fp 0 (r * NI) (length l) NI None).
       { unfold fs2. rewrite set_reg_other by lia. rewrite F1a. unfold sfp_inl. now rewrite Esm, Hs. }
-      destruct (fp_destroy_tail SK l2 fs2 (S nb) (2 * r) 0 T2 G2 H0 (Nat.le_0_l _)) as (l3 & E3 & T3 & G3).
+      destruct (fp_destroy_tail SK l2 fs2 (S b) (2 * r) 0 T2 G2 H0 (Nat.le_0_l _)) as (l3 & E3 & T3 & G3).
       rewrite F2a in E3, T3, G3. cbn [f_size f_nm f_k f_off] in E3. rewrite Nat.sub_0_r in E3.
       exists l3. split.
       * unfold cont_nm. rewrite Esm. unfold base_of.
-        change (EAlloc nb ?b :: ?x) with ([EAlloc nb b] ++ x).
+        change (EAlloc b ?x :: ?y) with ([EAlloc b x] ++ y).
         rewrite (ev_run_app_some _ _ _ _ E1). rewrite (ev_run_app_some _ _ _ _ E2). exact E3.
-      * eapply STR_ext with (fs := set_reg fs2 (2 * r) (resize_fp (mk_fp 0 (r * NI) (length l) NI None) 0)).
+      * apply (STR_mono _ _ (S b)); [now apply enc_lt|].
+        eapply STR_ext with (fs := set_reg fs2 (2 * r) (resize_fp (mk_fp 0 (r * NI) (length l) NI None) 0)).
         -- intros j. unfold set2, sfp_inl, sfp_heap. rewrite Gsm. cbn [s_blk s_size s_cap].
            unfold fs2, fs1, set_reg, resize_fp, f1. cbn [f_k f_off f_lim f_heap].
            destruct (Nat.eqb_spec j (2 * r + 1)) as [->|N1].
@@ -185,15 +194,17 @@ Proof.
     + (* heap -> heap *)
       assert (Hbz : s_blk v <> 0) by (eapply heap_blk_nz; eauto).
       assert (H1 : 2 * r + 1 < SK) by (unfold SK; lia).
-      destruct (fp_relocate SK ls fs nb (2 * r + 1) 6 (2 * c) (esz * N.of_nat (2 * c))%N (free_ev (s_blk v)) T G H1) as (l1 & E1 & T1 & G1);
+      destruct (fp_relocate SK ls fs (NINST * nb) b (2 * r + 1) 6 (2 * c) (esz * N.of_nat (2 * c))%N (free_ev al (s_blk v)) T G H1) as (l1 & E1 & T1 & G1);
         try (unfold SK; lia); try exact Esp.
       { rewrite SB. unfold sfp_heap. rewrite Esm. cbn [f_size]. lia. }
-      { rewrite SB. apply free_ev_heap; [|exact Hbz]. unfold sfp_heap. rewrite Esm. discriminate. }
+      { apply enc_ge. }
+      { rewrite SB. apply free_ev_heap; [|exact Hbz | exact Ak]. unfold sfp_heap. rewrite Esm. discriminate. }
       rewrite SB in E1, T1, G1. unfold sfp_heap in E1, T1, G1. rewrite Esm in E1, T1, G1.
       cbn [f_size f_nm f_k f_off] in E1, T1, G1. rewrite Hs in E1, T1, G1.
       exists l1. split.
       * unfold cont_nm. rewrite Esm. rewrite !heap_nm_nmk. exact E1.
-      * eapply STR_ext with (fs := set_reg fs (2 * r + 1) _); [|split; [exact T1|]; split; [exact G1|]; rewrite set_reg_other by lia; exact Esp].
+      * apply (STR_mono _ _ (S b)); [now apply enc_lt|].
+        eapply STR_ext with (fs := set_reg fs (2 * r + 1) _); [|split; [exact T1|]; split; [exact G1|]; rewrite set_reg_other by lia; exact Esp].
         intros j. unfold set2, sfp_inl, sfp_heap. rewrite Gsm. cbn [s_blk s_size s_cap]. unfold set_reg.
         destruct (Nat.eqb_spec j (2 * r + 1)) as [->|N1]; [reflexivity|].
         destruct (Nat.eqb_spec j (2 * r)) as [->|]; [|reflexivity]. rewrite SA. unfold sfp_inl. now rewrite Esm.
@@ -213,12 +224,12 @@ Lemma sfp_empty r inl0 : sfp_inl r (sv_empty NI inl0) = mk_fp 0 (r * NI) 0 NI No
 Proof. unfold sfp_inl, sfp_heap, sv_empty, is_small. cbn [s_cap s_size]. now rewrite Nat.leb_refl. Qed.
 
 (* ---- destructor *)
-Lemma s_destruct ls fs nb r v l inl0 : STR ls fs nb -> r < 3 -> SL r v fs -> sinv NI v l ->
+Lemma s_destruct ls fs al nb r v l inl0 : STR ls fs nb -> r < 3 -> SL r v fs -> sinv NI v l -> saok al v ->
   exists ls', ev_run ls (destroy_evs (cont_nm NI (base_of NI r) v) 0 (length l)
-                         ++ (if is_small NI v then [] else [EDealloc (s_blk v) (esz * N.of_nat (s_cap v))%N])) = Some ls' /\
+                         ++ (if is_small NI v then [] else [EDealloc (reenc al (s_blk v)) (esz * N.of_nat (s_cap v))%N])) = Some ls' /\
     STR ls' (set2 fs r (sv_empty NI inl0)) nb.
 Proof.
-  intros TRs Hr SLr H. pose proof TRs as (T & G & Esp). pose proof G as (Nz & _). pose proof H as (Hs & _).
+  intros TRs Hr SLr H (_ & Ak). pose proof TRs as (T & G & Esp). pose proof G as (Nz & _). pose proof H as (Hs & _).
   pose proof SLr as (SA & SB). destruct (sfp_empty r inl0) as (EA & EB).
   destruct (is_small NI v) eqn:Esm.
   - rewrite app_nil_r. assert (H0 : 2 * r < SK) by (unfold SK; lia).
@@ -232,6 +243,7 @@ Proof.
     + destruct (Nat.eqb_spec (2 * r + 1) (2 * r)); [lia|]. rewrite SB. unfold sfp_heap. now rewrite Esm.
     + destruct (Nat.eqb_spec j (2 * r)); reflexivity.
   - assert (H1 : 2 * r + 1 < SK) by (unfold SK; lia).
+    assert (Hbz : s_blk v <> 0) by (eapply heap_blk_nz; eauto). rewrite (Ak Hbz).
     destruct (fp_destruct SK ls fs nb (2 * r + 1) fp0 [EDealloc (s_blk v) (esz * N.of_nat (s_cap v))%N] T G H1 eq_refl eq_refl) as (l1 & E1 & T1 & G1).
     { now apply fp_ok_fp0. }
     { intros j _ _. apply sep_fp0. }
@@ -245,14 +257,15 @@ Proof.
 Qed.
 
 (* ---- copy construction into the (empty) register t from register s *)
-Lemma s_copy ls fs nb s t o l inl0 : STR ls fs nb -> s < 3 -> t < 3 -> s <> t -> SL s o fs -> SL t (sv_empty NI inl0) fs ->
-  sinv NI o l ->
-  let g := sgrown NI nb (length l) (sv_empty NI (repeat None NI)) [] in
-  exists ls', ev_run ls (sgrow_evs esz NI nb (base_of NI t) (length l) (sv_empty NI (repeat None NI)) []
+Lemma s_copy ls fs al nb s t o l inl0 : STR ls fs (NINST * nb) -> s < 3 -> t < 3 -> s <> t -> SL s o fs -> SL t (sv_empty NI inl0) fs ->
+  sinv NI o l -> al < NINST ->
+  let g := sgrown NI (enc al nb) (length l) (sv_empty NI (repeat None NI)) [] in
+  exists ls', ev_run ls (sgrow_evs esz NI al (enc al nb) (base_of NI t) (length l) (sv_empty NI (repeat None NI)) []
                          ++ xfer_evs (cont_nm NI (base_of NI s) o) (cont_nm NI (base_of NI t) g) 0 (length l)) = Some ls' /\
-    STR ls' (set2 fs t (scopied NI nb l)) (grown_nb nb (length l) (mk_vec 0 [] 0 NI)).
+    STR ls' (set2 fs t (scopied NI (enc al nb) l)) (NINST * grown_nb nb (length l) (mk_vec 0 [] 0 NI)).
 Proof.
-  intros TRs Hs Ht Nst SLs SLt H g. pose proof TRs as (T & G & Esp). pose proof G as (Nz & _). pose proof H as (Os & Oc & On & _).
+  intros TRs Hs Ht Nst SLs SLt H Al g. set (b := enc al nb) in *.
+  assert (Bz : b <> 0) by (pose proof (enc_ge al nb); pose proof (STR_nz _ _ _ TRs); unfold b; lia). pose proof TRs as (T & G & Esp). pose proof G as (Nz & _). pose proof H as (Os & Oc & On & _).
   pose proof SLt as (TA & TB). destruct (sfp_empty t inl0) as (EA & EB). rewrite EA in TA. rewrite EB in TB.
   assert (Hcs : cs s o < SK) by (pose proof (cs_lt s o Hs); unfold SK; lia).
   unfold sgrow_evs, grown_nb, scopied. cbn [v_cap s_cap sv_empty]. fold g. unfold g, sgrown. cbn [s_cap sv_empty].
@@ -261,7 +274,7 @@ Proof.
     apply Nat.leb_le in E. cbn [app].
     assert (Sm : is_small NI (sv_empty NI (repeat None NI)) = true) by (unfold is_small, sv_empty; cbn [s_cap]; apply Nat.leb_refl).
     assert (H0 : 2 * t < SK) by (unfold SK; lia).
-    destruct (fp_xfer SK ls fs nb (cs s o) (2 * t) T G Hcs H0) as (l1 & E1 & T1 & G1).
+    destruct (fp_xfer SK ls fs (NINST * nb) (cs s o) (2 * t) T G Hcs H0) as (l1 & E1 & T1 & G1).
     { unfold cs. destruct (is_small NI o); lia. }
     { now rewrite TA. }
     { rewrite (cs_size fs s o SLs), TA, Os. cbn [f_lim]. exact E. }
@@ -273,26 +286,27 @@ Proof.
     + destruct (Nat.eqb_spec (2 * t + 1) (2 * t)); [lia | now rewrite TB].
     + destruct (Nat.eqb_spec j (2 * t)); reflexivity.
   - (* directly on the heap *)
-    apply Nat.leb_gt in E. cbn [length xfer_evs destroy_evs seq flat_map map app free_ev s_blk sv_empty Nat.eqb].
-    set (gh := mk_sv (repeat None NI) nb (slots [] (2 * length l)) 0 (2 * length l)).
+    apply Nat.leb_gt in E. unfold free_ev. cbn [length xfer_evs destroy_evs seq flat_map map app s_blk sv_empty Nat.eqb].
+    set (gh := mk_sv (repeat None NI) b (slots [] (2 * length l)) 0 (2 * length l)).
     assert (Gsm : is_small NI gh = false) by (unfold is_small, gh; cbn [s_cap]; apply Nat.leb_gt; lia).
     assert (H1 : 2 * t + 1 < SK) by (unfold SK; lia).
-    destruct (fp_alloc SK ls fs nb (2 * t + 1) (2 * length l) (esz * N.of_nat (2 * length l))%N T G H1) as (l1 & E1 & T1 & G1);
-      [now rewrite TB | now rewrite TB|].
-    set (f1 := mk_fp nb 0 0 (2 * length l) (Some (nb, (esz * N.of_nat (2 * length l))%N))) in *.
+    destruct (fp_alloc SK ls fs (NINST * nb) b (2 * t + 1) (2 * length l) (esz * N.of_nat (2 * length l))%N T G H1) as (l1 & E1 & T1 & G1);
+      [now rewrite TB | now rewrite TB | apply enc_ge|].
+    set (f1 := mk_fp b 0 0 (2 * length l) (Some (b, (esz * N.of_nat (2 * length l))%N))) in *.
     set (fs1 := set_reg fs (2 * t + 1) f1) in *.
     assert (SLs1 : SL s o fs1).
     { destruct SLs as (A & B). split; unfold fs1; rewrite set_reg_other by lia; assumption. }
     assert (F1b : fs1 (2 * t + 1) = f1) by (unfold fs1; now rewrite set_reg_same).
-    destruct (fp_xfer SK l1 fs1 (S nb) (cs s o) (2 * t + 1) T1 G1 Hcs H1) as (l2 & E2 & T2 & G2).
+    destruct (fp_xfer SK l1 fs1 (S b) (cs s o) (2 * t + 1) T1 G1 Hcs H1) as (l2 & E2 & T2 & G2).
     { unfold cs. destruct (is_small NI o); lia. }
     { now rewrite F1b. }
     { rewrite (cs_size fs1 s o SLs1), F1b, Os. cbn [f_lim f1]. lia. }
     rewrite (cs_nm fs1 s o SLs1), (cs_size fs1 s o SLs1), F1b, Os in E2. rewrite (cs_size fs1 s o SLs1), F1b, Os in T2, G2. cbn [f_nm f_k f_off f1] in E2.
     exists l2. split.
-    + change (EAlloc nb ?b :: ?x) with ([EAlloc nb b] ++ x).
+    + change (EAlloc b ?y :: ?x) with ([EAlloc b y] ++ x).
       rewrite (ev_run_app_some _ _ _ _ E1). unfold cont_nm at 2. rewrite Gsm. unfold gh. cbn [s_blk]. rewrite heap_nm_nmk. exact E2.
-    + eapply STR_ext with (fs := set_reg fs1 (2 * t + 1) _);
+    + apply (STR_mono _ _ (S b)); [now apply enc_lt|].
+      eapply STR_ext with (fs := set_reg fs1 (2 * t + 1) _);
         [|split; [exact T2|]; split; [exact G2|]; unfold fs1; rewrite !set_reg_other by lia; exact Esp].
       intros j. fold gh. unfold set2, sfp_inl, sfp_heap. rewrite with_cont_small, with_cont_size, with_cont_blk, with_cont_cap, Gsm.
       unfold fs1, set_reg, resize_fp, f1, gh. cbn [f_k f_off f_lim f_heap s_blk s_cap].
@@ -374,19 +388,35 @@ Definition sregs_ok (o : sop) : Prop :=
   | SPush r _ | SPushMove r _ | SEmplace r _ | SPop r | SResize r _ _ | SFront r | SBack r | SIndex r _ => r < 3
   | SCopyCtor r s | SMoveCtor r s | SSwap r s => r < 3 /\ s < 3
   end.
-Definition szs (rg : nat -> svec) : Prop := forall r, sz (rg r).
-Lemma szs_set rg r v : szs rg -> sz v -> szs (set_reg rg r v).
+(* per-vector side invariants: a small vector has no heap block; the allocator instance handed out the heap block *)
+Definition sok (al : nat) (v : svec) : Prop := sz v /\ saok al v.
+Definition soks (al : nat -> nat) (rg : nat -> svec) : Prop := forall r, sok (al r) (rg r).
+Lemma soks_set al rg r a v : soks al rg -> sok a v -> soks (set_reg al r a) (set_reg rg r v).
 Proof. intros Z Hv k. unfold set_reg. destruct (Nat.eqb k r); [exact Hv | apply Z]. Qed.
+Lemma soks_set_reg al rg r v : soks al rg -> sok (al r) v -> soks al (set_reg rg r v).
+Proof. intros Z Hv k. unfold set_reg. destruct (Nat.eqb_spec k r) as [->|]; [exact Hv | apply Z]. Qed.
+
+Lemma sok_grown al nb c v l : al < NINST -> sinv NI v l -> sok al v -> sok al (sgrown NI (enc al nb) c v l).
+Proof.
+  intros Al H (Z & A). split; [now apply sz_grown|]. split; [exact Al|].
+  unfold sgrown. destruct (Nat.leb c (s_cap v)); [apply A | intros _; cbn [s_blk]; now apply reenc_enc].
+Qed.
+Lemma sok_with_cont al v l' : sok al v -> sok al (with_cont NI v l').
+Proof. intros (Z & Al & A). split; [now apply sz_with_cont|]. split; [exact Al | now rewrite with_cont_blk]. Qed.
+Lemma sok_empty al inl0 : al < NINST -> sok al (sv_empty NI inl0).
+Proof. intros Al. split; [apply sz_empty|]. split; [exact Al | intros H; cbn in H; congruence]. Qed.
+Lemma sok_swapped al a b lb : sok al b -> sok al (swapped NI a b lb).
+Proof. intros (Z & Al & A). split; [now apply sz_swapped|]. split; [exact Al | exact A]. Qed.
 
 Lemma STR_reg rg r v' ls' nb' : r < 3 -> STR ls' (set2 (sfs rg) r v') nb' -> STR ls' (sfs (set_reg rg r v')) nb'.
 Proof. intros Hr T. eapply STR_ext; [|exact T]. intros j. now apply sfs_set. Qed.
 
 Lemma sstep_log st rs o ls :
-  srel NI st rs -> szs (sregs st) -> STR ls (sfs (sregs st)) (snextb st) -> sref_pre rs o -> sregs_ok o ->
+  srel NI st rs -> soks (sals st) (sregs st) -> STR ls (sfs (sregs st)) (NINST * snextb st) -> sref_pre rs o -> sregs_ok o ->
   match sref_step rs o with
   | Some (rs', out) =>
     exists st' e ls', sstep esz NI st o = Ok (st', out, e) /\ ev_run ls e = Some ls' /\
-      srel NI st' rs' /\ szs (sregs st') /\ STR ls' (sfs (sregs st')) (snextb st')
+      srel NI st' rs' /\ soks (sals st') (sregs st') /\ STR ls' (sfs (sregs st')) (NINST * snextb st')
   | None => sstep esz NI st o = AssertStop
   end.
 Proof.
@@ -394,45 +424,44 @@ Proof.
   pose proof (sstep_refines esz NI st rs o R P) as Href.
   destruct (sref_step rs o) as [[rs' out]|] eqn:Eref; [|exact Href].
   destruct Href as (st0 & e0 & Hstep & R').
-  destruct st as [rg nb]. pose proof R as R0. unfold srel in R0. cbn [sregs snextb] in *.
-  pose proof (STR_nz _ _ _ T) as Nz.
-  assert (Fin : forall st' e ls', sstep esz NI (mk_sst rg nb) o = Ok (st', out, e) ->
-            ev_run ls e = Some ls' -> szs (sregs st') -> STR ls' (sfs (sregs st')) (snextb st') ->
-            exists st' e ls', sstep esz NI (mk_sst rg nb) o = Ok (st', out, e) /\ ev_run ls e = Some ls' /\
-              srel NI st' rs' /\ szs (sregs st') /\ STR ls' (sfs (sregs st')) (snextb st')).
+  destruct st as [rg al nb]. pose proof R as R0. unfold srel in R0. cbn [sregs sals snextb] in *.
+  assert (Fin : forall st' e ls', sstep esz NI (mk_sst rg al nb) o = Ok (st', out, e) ->
+            ev_run ls e = Some ls' -> soks (sals st') (sregs st') -> STR ls' (sfs (sregs st')) (NINST * snextb st') ->
+            exists st' e ls', sstep esz NI (mk_sst rg al nb) o = Ok (st', out, e) /\ ev_run ls e = Some ls' /\
+              srel NI st' rs' /\ soks (sals st') (sregs st') /\ STR ls' (sfs (sregs st')) (NINST * snextb st')).
   { intros st' e ls' H1 H2 H3 H4. exists st', e, ls'. split; [exact H1|]. split; [exact H2|]. split; [|split; assumption].
     rewrite Hstep in H1. inversion H1; subst. exact R'. }
   clear Hstep R'.
-  destruct o as [r x|r x|r x|r|r n x|r|r|r i|r s|r s|r s]; cbn [sstep sregs snextb sref_step sref_pre sregs_ok] in *.
-  1-3: (inversion Eref; subst rs' out; clear Eref;
-    destruct (s_grow ls (sfs rg) nb r (rg r) (rs r) (length (rs r) + 1) T RO (sfs_SL rg r RO) (R0 r) (Z r)) as (l1 & E1 & T1);
-    set (g := sgrown NI nb (length (rs r) + 1) (rg r) (rs r)) in *;
-    destruct (sgrown_inv NI nb (length (rs r) + 1) (rg r) (rs r) (R0 r)) as (Gi & Gc); fold g in Gi, Gc;
+  destruct o as [r x|r x|r x|r|r n x|r|r|r i|r s|r s|r s]; cbn [sstep sregs sals snextb sref_step sref_pre sregs_ok] in *.
+  1-3: (inversion Eref; subst rs' out; clear Eref; destruct (Z r) as (Zr & Ar); pose proof Ar as (Alr & _);
+    destruct (s_grow ls (sfs rg) (al r) nb r (rg r) (rs r) (length (rs r) + 1) T RO (sfs_SL rg r RO) (R0 r) Zr Ar) as (l1 & E1 & T1);
+    set (g := sgrown NI (enc (al r) nb) (length (rs r) + 1) (rg r) (rs r)) in *;
+    destruct (sgrown_inv NI (enc (al r) nb) (length (rs r) + 1) (rg r) (rs r) (R0 r)) as (Gi & Gc); fold g in Gi, Gc;
     destruct (s_fill l1 _ _ r g (rs r) (rs r ++ [x]) T1 RO (SL_set2 _ r g) Gi) as (l2 & E2 & T2);
       [rewrite app_length; cbn [length]; lia | rewrite app_length; cbn [length]; lia |];
     rewrite app_length in E2; cbn [length] in E2; replace (length (rs r) + 1 - length (rs r)) with 1 in E2 by lia;
-    eapply Fin; [rewrite (sv_push_eq esz NI nb (base_of NI r) x (rg r) (rs r) (R0 r)); reflexivity
+    eapply Fin; [rewrite (sv_push_eq esz NI (al r) nb (base_of NI r) x (rg r) (rs r) (R0 r)); reflexivity
                 | rewrite (ev_run_app_some _ _ _ _ E1); exact E2 | |];
-    [cbn [sregs]; apply szs_set; [exact Z | apply sz_with_cont; apply sz_grown; [apply R0 | apply Z]]
+    [cbn [sregs sals]; apply soks_set_reg; [exact Z | apply sok_with_cont; apply sok_grown; [exact Alr | apply R0 | apply Z]]
     | cbn [sregs snextb]; apply STR_reg; [exact RO|]; eapply STR_ext; [|exact T2]; intros j; now rewrite set2_set2]).
   - (* pop_back *)
     destruct (rs r) as [|a l0] eqn:E; [discriminate|]. rewrite <- E in *.
     assert (NE : rs r <> []) by (rewrite E; discriminate).
     destruct (exists_last NE) as (l & x & E'). pose proof (R0 r) as Hr. rewrite E' in Hr.
     inversion Eref; subst rs' out; clear Eref.
-    destruct (s_destroy_tail ls (sfs rg) nb r (rg r) (l ++ [x]) l T RO (sfs_SL rg r RO) Hr) as (l1 & E1 & T1); [rewrite app_length; lia|].
+    destruct (s_destroy_tail ls (sfs rg) _ r (rg r) (l ++ [x]) l T RO (sfs_SL rg r RO) Hr) as (l1 & E1 & T1); [rewrite app_length; lia|].
     rewrite app_length in E1. cbn [length] in E1. replace (length l + 1 - length l) with 1 in E1 by lia.
     eapply Fin; [rewrite (sv_pop_eq NI (base_of NI r) (rg r) l x Hr); reflexivity | exact E1 | |].
-    + cbn [sregs]. apply szs_set; [exact Z | apply sz_with_cont, Z].
+    + cbn [sregs sals]. apply soks_set_reg; [exact Z | apply sok_with_cont, Z].
     + cbn [sregs snextb]. apply STR_reg; [exact RO|]. exact T1.
   - (* resize *)
-    inversion Eref; subst rs' out; clear Eref.
-    destruct (s_grow ls (sfs rg) nb r (rg r) (rs r) n T RO (sfs_SL rg r RO) (R0 r) (Z r)) as (l1 & E1 & T1).
-    set (g := sgrown NI nb n (rg r) (rs r)) in *.
-    destruct (sgrown_inv NI nb n (rg r) (rs r) (R0 r)) as (Gi & Gc). fold g in Gi, Gc.
+    inversion Eref; subst rs' out; clear Eref. destruct (Z r) as (Zr & Ar). pose proof Ar as (Alr & _).
+    destruct (s_grow ls (sfs rg) (al r) nb r (rg r) (rs r) n T RO (sfs_SL rg r RO) (R0 r) Zr Ar) as (l1 & E1 & T1).
+    set (g := sgrown NI (enc (al r) nb) n (rg r) (rs r)) in *.
+    destruct (sgrown_inv NI (enc (al r) nb) n (rg r) (rs r) (R0 r)) as (Gi & Gc). fold g in Gi, Gc.
     pose proof (resized_list_length n x (rs r)) as Ln.
-    assert (exists l2, ev_run l1 (sresize_evs NI nb (base_of NI r) n (rg r) (rs r)) = Some l2 /\
-              STR l2 (set2 (set2 (sfs rg) r g) r (with_cont NI g (resized_list n x (rs r)))) (grown_nb nb n (mk_vec 0 [] 0 (s_cap (rg r))))) as (l2 & E2 & T2).
+    assert (exists l2, ev_run l1 (sresize_evs NI (enc (al r) nb) (base_of NI r) n (rg r) (rs r)) = Some l2 /\
+              STR l2 (set2 (set2 (sfs rg) r g) r (with_cont NI g (resized_list n x (rs r)))) (NINST * grown_nb nb n (mk_vec 0 [] 0 (s_cap (rg r))))) as (l2 & E2 & T2).
     { unfold sresize_evs. fold g. destruct (Nat.ltb n (length (rs r))) eqn:En.
       - apply Nat.ltb_lt in En.
         destruct (s_destroy_tail l1 _ _ r g (rs r) (resized_list n x (rs r)) T1 RO (SL_set2 _ r g) Gi) as (l2 & E2 & T2); [lia|].
@@ -440,9 +469,9 @@ Proof.
       - apply Nat.ltb_ge in En.
         destruct (s_fill l1 _ _ r g (rs r) (resized_list n x (rs r)) T1 RO (SL_set2 _ r g) Gi) as (l2 & E2 & T2); [lia | lia|].
         rewrite Ln in E2. eauto. }
-    eapply Fin; [rewrite (sv_resize_eq esz NI nb (base_of NI r) n x (rg r) (rs r) (R0 r)); reflexivity
+    eapply Fin; [rewrite (sv_resize_eq esz NI (al r) nb (base_of NI r) n x (rg r) (rs r) (R0 r)); reflexivity
                 | rewrite (ev_run_app_some _ _ _ _ E1); exact E2 | |].
-    + cbn [sregs]. apply szs_set; [exact Z | apply sz_with_cont; apply sz_grown; [apply R0 | apply Z]].
+    + cbn [sregs sals]. apply soks_set_reg; [exact Z | apply sok_with_cont; apply sok_grown; [exact Alr | apply R0 | apply Z]].
     + cbn [sregs snextb]. apply STR_reg; [exact RO|]. eapply STR_ext; [|exact T2]. intros j. now rewrite set2_set2.
   - (* front *)
     destruct (rs r) as [|y l] eqn:E; [discriminate|]. inversion Eref; subst rs' out; clear Eref.
@@ -457,66 +486,72 @@ Proof.
     inversion Eref; subst rs' out; clear Eref.
     eapply Fin; [rewrite (sv_index_eq NI (rg r) (rs r) i (R0 r)); apply Nat.ltb_lt in P; rewrite P; reflexivity | reflexivity | exact Z | exact T].
   - (* copy construction *)
-    destruct RO as [Hr Hs]. inversion Eref; subst rs' out; clear Eref.
+    destruct RO as [Hr Hs]. inversion Eref; subst rs' out; clear Eref. destruct (Z s) as (_ & Als & _).
     destruct (Nat.eqb_spec r s) as [->|Nrs]; [eapply Fin; [reflexivity | reflexivity | exact Z | exact T]|].
-    destruct (s_destruct ls (sfs rg) nb r (rg r) (rs r) (repeat None NI) T Hr (sfs_SL rg r Hr) (R0 r)) as (l1 & E1 & T1).
+    destruct (s_destruct ls (sfs rg) (al r) _ r (rg r) (rs r) (repeat None NI) T Hr (sfs_SL rg r Hr) (R0 r)) as (l1 & E1 & T1); [apply Z|].
     assert (SLs1 : SL s (rg s) (set2 (sfs rg) r (sv_empty NI (repeat None NI)))).
     { destruct (sfs_SL rg s Hs) as (A & B). split; rewrite set2_other by lia; assumption. }
-    destruct (s_copy l1 _ nb s r (rg s) (rs s) (repeat None NI) T1 Hs Hr (not_eq_sym Nrs) SLs1 (SL_set2 _ r _) (R0 s)) as (l2 & E2 & T2).
-    eapply Fin; [rewrite (sv_destruct_eq esz NI (base_of NI r) (rg r) (rs r) (R0 r)); cbn [bind];
-                 rewrite (sv_copy_ctor_eq esz NI nb (base_of NI r) (base_of NI s) (rg s) (rs s) (R0 s)); reflexivity
+    destruct (s_copy l1 _ (al s) nb s r (rg s) (rs s) (repeat None NI) T1 Hs Hr (not_eq_sym Nrs) SLs1 (SL_set2 _ r _) (R0 s) Als) as (l2 & E2 & T2).
+    eapply Fin; [rewrite (sv_destruct_eq esz NI (al r) (base_of NI r) (rg r) (rs r) (R0 r)); cbn [bind];
+                 rewrite (sv_copy_ctor_eq esz NI (al s) nb (base_of NI r) (base_of NI s) (rg s) (rs s) (R0 s)); reflexivity
                 | rewrite (ev_run_app_some _ _ _ _ E1); exact E2 | |].
-    + cbn [sregs]. apply szs_set; [exact Z|]. unfold scopied. apply sz_with_cont. apply sz_grown; [apply sinv_empty | apply sz_empty].
+    + cbn [sregs sals]. apply soks_set; [exact Z|]. unfold scopied. apply sok_with_cont. apply sok_grown; [exact Als | apply sinv_empty | now apply sok_empty].
     + cbn [sregs snextb]. apply STR_reg; [exact Hr|]. eapply STR_ext; [|exact T2]. intros j. now rewrite set2_set2.
   - (* move construction *)
-    destruct RO as [Hr Hs]. inversion Eref; subst rs' out; clear Eref.
+    destruct RO as [Hr Hs]. inversion Eref; subst rs' out; clear Eref. destruct (Z s) as (_ & Als & _).
     destruct (Nat.eqb_spec r s) as [->|Nrs]; [eapply Fin; [reflexivity | reflexivity | exact Z | exact T]|].
-    destruct (s_destruct ls (sfs rg) nb r (rg r) (rs r) (repeat None NI) T Hr (sfs_SL rg r Hr) (R0 r)) as (l1 & E1 & T1).
+    destruct (s_destruct ls (sfs rg) (al r) _ r (rg r) (rs r) (repeat None NI) T Hr (sfs_SL rg r Hr) (R0 r)) as (l1 & E1 & T1); [apply Z|].
     assert (SLs1 : SL s (rg s) (set2 (sfs rg) r (sv_empty NI (repeat None NI)))).
     { destruct (sfs_SL rg s Hs) as (A & B). split; rewrite set2_other by lia; assumption. }
-    destruct (s_swap l1 _ nb r s _ (rg s) [] (rs s) T1 Hr Hs Nrs (SL_set2 _ r _) SLs1 (sinv_empty NI) (R0 s)) as (l2 & E2 & T2).
-    eapply Fin; [rewrite (sv_destruct_eq esz NI (base_of NI r) (rg r) (rs r) (R0 r)); cbn [bind];
+    destruct (s_swap l1 _ _ r s _ (rg s) [] (rs s) T1 Hr Hs Nrs (SL_set2 _ r _) SLs1 (sinv_empty NI) (R0 s)) as (l2 & E2 & T2).
+    eapply Fin; [rewrite (sv_destruct_eq esz NI (al r) (base_of NI r) (rg r) (rs r) (R0 r)); cbn [bind];
                  rewrite (sv_swap_eq NI (base_of NI r) (base_of NI s) _ (rg s) [] (rs s) (sinv_empty NI) (R0 s)); reflexivity
                 | rewrite (ev_run_app_some _ _ _ _ E1); exact E2 | |].
-    + cbn [sregs]. apply szs_set; [apply szs_set; [exact Z | apply sz_swapped, Z] | apply sz_swapped, sz_empty].
+    + cbn [sregs sals]. intros k. unfold set_reg.
+      destruct (Nat.eqb_spec k s) as [->|Nks].
+      * destruct (Nat.eqb_spec s r); [congruence|]. apply (sok_swapped (al s) (rg s) (sv_empty NI (repeat None NI)) []). now apply sok_empty.
+      * destruct (Nat.eqb k r); [apply (sok_swapped (al s) _ (rg s) (rs s)), Z | apply Z].
     + cbn [sregs snextb]. eapply STR_ext; [|exact T2]. intros j.
       rewrite sfs_set by exact Hs. apply set2_cong. intros k. rewrite sfs_set by exact Hr. now rewrite set2_set2.
   - (* swap *)
     destruct RO as [Hr Hs]. inversion Eref; subst rs' out; clear Eref.
     destruct (Nat.eqb_spec r s) as [->|Nrs]; [eapply Fin; [reflexivity | reflexivity | exact Z | exact T]|].
-    destruct (s_swap ls _ nb r s (rg r) (rg s) (rs r) (rs s) T Hr Hs Nrs (sfs_SL rg r Hr) (sfs_SL rg s Hs) (R0 r) (R0 s)) as (l2 & E2 & T2).
+    destruct (s_swap ls _ _ r s (rg r) (rg s) (rs r) (rs s) T Hr Hs Nrs (sfs_SL rg r Hr) (sfs_SL rg s Hs) (R0 r) (R0 s)) as (l2 & E2 & T2).
     eapply Fin; [rewrite (sv_swap_eq NI (base_of NI r) (base_of NI s) (rg r) (rg s) (rs r) (rs s) (R0 r) (R0 s)); reflexivity | exact E2 | |].
-    + cbn [sregs]. apply szs_set; [apply szs_set; [exact Z | apply sz_swapped, Z] | apply sz_swapped, Z].
+    + cbn [sregs sals]. intros k. unfold set_reg.
+      destruct (Nat.eqb_spec k s) as [->|Nks].
+      * destruct (Nat.eqb_spec s r); [congruence|]. apply (sok_swapped (al r) (rg s) (rg r) (rs r)), Z.
+      * destruct (Nat.eqb k r); [apply (sok_swapped (al s) (rg r) (rg s) (rs s)), Z | apply Z].
     + cbn [sregs snextb]. eapply STR_ext; [|exact T2]. intros j.
       rewrite sfs_set by exact Hs. apply set2_cong. intros k. now apply sfs_set.
 Qed.
 
-
 Lemma srun_log : forall ops st rs ls,
-  srel NI st rs -> szs (sregs st) -> STR ls (sfs (sregs st)) (snextb st) -> sref_ok rs ops -> Forall sregs_ok ops ->
+  srel NI st rs -> soks (sals st) (sregs st) -> STR ls (sfs (sregs st)) (NINST * snextb st) -> sref_ok rs ops -> Forall sregs_ok ops ->
   match sref_run rs ops with
   | Some (rs', outs) =>
     exists st' e ls', srun esz NI st ops = Ok (st', outs, e) /\ ev_run ls e = Some ls' /\
-      srel NI st' rs' /\ STR ls' (sfs (sregs st')) (snextb st')
+      srel NI st' rs' /\ soks (sals st') (sregs st') /\ STR ls' (sfs (sregs st')) (NINST * snextb st')
   | None => srun esz NI st ops = AssertStop
   end.
 Proof.
   induction ops as [|o ops IH]; intros st rs ls R Z T K RO.
-  - cbn [sref_run srun]. exists st, [], ls. split; [reflexivity|]. split; [reflexivity|]. split; assumption.
+  - cbn [sref_run srun]. exists st, [], ls. split; [reflexivity|]. split; [reflexivity|]. split; [exact R|]. split; assumption.
   - destruct K as [P K]. inversion RO as [|? ? RO1 RO2]; subst.
     pose proof (sstep_log st rs o ls R Z T P RO1) as Hs. cbn [srun sref_run].
     destruct (sref_step rs o) as [[rs1 x]|]; [|now rewrite Hs].
     destruct Hs as (st1 & e1 & l1 & H1 & E1 & R1 & Z1 & T1). rewrite H1. cbn [bind].
     specialize (IH st1 rs1 l1 R1 Z1 T1 K RO2). destruct (sref_run rs1 ops) as [[rs2 xs]|].
-    + destruct IH as (st2 & e2 & l2 & H2 & E2 & R2 & T2). rewrite H2. cbn [bind].
-      exists st2, (e1 ++ e2), l2. split; [reflexivity|]. split; [rewrite (ev_run_app_some _ _ _ _ E1); exact E2|]. split; assumption.
+    + destruct IH as (st2 & e2 & l2 & H2 & E2 & R2 & Z2 & T2). rewrite H2. cbn [bind].
+      exists st2, (e1 ++ e2), l2. split; [reflexivity|]. split; [rewrite (ev_run_app_some _ _ _ _ E1); exact E2|].
+      split; [exact R2|]. split; assumption.
     + now rewrite IH.
 Qed.
 
-Lemma STR0 : STR ls0 (sfs (sregs (sst0 NI))) (snextb (sst0 NI)).
+Lemma STR0 : STR ls0 (sfs (sregs (sst0 NI))) (NINST * snextb (sst0 NI)).
 Proof.
-  cbn [sregs snextb sst0].
-  assert (Ok1 : forall r, fp_ok 1 (mk_fp 0 (r * NI) 0 NI None)).
+  cbn [sregs snextb sst0]. replace (NINST * 1) with 4 by reflexivity.
+  assert (Ok1 : forall r, fp_ok 4 (mk_fp 0 (r * NI) 0 NI None)).
   { intros r. unfold fp_ok. cbn. repeat split; try lia; try congruence; intros; discriminate. }
   assert (Cases : forall j, sfs (fun _ => sv_empty NI (repeat None NI)) j = fp0 \/
                             exists r, r < 3 /\ j = 2 * r /\ sfs (fun _ => sv_empty NI (repeat None NI)) j = mk_fp 0 (r * NI) 0 NI None).
@@ -539,19 +574,19 @@ Proof.
       assert (r <> r') by (intros ->; lia). destruct (Nat.lt_ge_cases r r'); [left | right]; nia.
 Qed.
 
-Lemma sfinish_log st rs ls : srel NI st rs -> STR ls (sfs (sregs st)) (snextb st) ->
+Lemma sfinish_log st rs ls : srel NI st rs -> soks (sals st) (sregs st) -> STR ls (sfs (sregs st)) (NINST * snextb st) ->
   exists e ls', sfinish esz NI st = Ok e /\ ev_run ls e = Some ls' /\ blocks ls' = [] /\ live ls' = [].
 Proof.
-  intros R T. destruct st as [rg nb]. cbn [sregs snextb] in *. pose proof R as R0. unfold srel in R0. cbn [sregs] in R0.
-  unfold sfinish, nregs. cbn [sregs sv_destruct_regs].
-  rewrite (sv_destruct_eq esz NI _ (rg 0) (rs 0) (R0 0)). cbn [bind].
-  rewrite (sv_destruct_eq esz NI _ (rg 1) (rs 1) (R0 1)). cbn [bind].
-  rewrite (sv_destruct_eq esz NI _ (rg 2) (rs 2) (R0 2)). cbn [bind].
+  intros R Z T. destruct st as [rg al nb]. cbn [sregs sals snextb] in *. pose proof R as R0. unfold srel in R0. cbn [sregs] in R0.
+  unfold sfinish, nregs. cbn [sregs sals sv_destruct_regs].
+  rewrite (sv_destruct_eq esz NI (al 0) _ (rg 0) (rs 0) (R0 0)). cbn [bind].
+  rewrite (sv_destruct_eq esz NI (al 1) _ (rg 1) (rs 1) (R0 1)). cbn [bind].
+  rewrite (sv_destruct_eq esz NI (al 2) _ (rg 2) (rs 2) (R0 2)). cbn [bind].
   set (E0 := sv_empty NI (repeat None NI)).
-  destruct (s_destruct ls _ nb 0 (rg 0) (rs 0) (repeat None NI) T) as (l1 & E1 & T1); [lia | apply sfs_SL; lia | apply R0|].
-  destruct (s_destruct l1 _ nb 1 (rg 1) (rs 1) (repeat None NI) T1) as (l2 & E2 & T2); [lia | | apply R0|].
+  destruct (s_destruct ls _ (al 0) _ 0 (rg 0) (rs 0) (repeat None NI) T) as (l1 & E1 & T1); [lia | apply sfs_SL; lia | apply R0 | apply Z|].
+  destruct (s_destruct l1 _ (al 1) _ 1 (rg 1) (rs 1) (repeat None NI) T1) as (l2 & E2 & T2); [lia | | apply R0 | apply Z|].
   { destruct (sfs_SL rg 1) as (A & B); [lia|]. split; rewrite set2_other by lia; assumption. }
-  destruct (s_destruct l2 _ nb 2 (rg 2) (rs 2) (repeat None NI) T2) as (l3 & E3 & T3); [lia | | apply R0|].
+  destruct (s_destruct l2 _ (al 2) _ 2 (rg 2) (rs 2) (repeat None NI) T2) as (l3 & E3 & T3); [lia | | apply R0 | apply Z|].
   { destruct (sfs_SL rg 2) as (A & B); [lia|]. split; rewrite !set2_other by lia; assumption. }
   eexists. exists l3. split; [reflexivity|]. split.
   - rewrite (ev_run_app_some _ _ _ _ E1), (ev_run_app_some _ _ _ _ E2), app_nil_r. exact E3.
@@ -579,10 +614,11 @@ Theorem small_vector_log_wf : forall ops, sref_ok rs0 ops -> Forall sregs_ok ops
   end.
 Proof.
   intros ops K RO.
-  pose proof (srun_log ops (sst0 NI) rs0 ls0 (srel0 NI) (fun _ => sz_empty _) STR0 K RO) as H.
+  assert (Z0 : soks (sals (sst0 NI)) (sregs (sst0 NI))) by (intros r; apply sok_empty; cbn [sals sst0]; unfold NINST; lia).
+  pose proof (srun_log ops (sst0 NI) rs0 ls0 (srel0 NI) Z0 STR0 K RO) as H.
   destruct (sref_run rs0 ops) as [[rs outs]|]; [|exact H].
-  destruct H as (st & e & l1 & H & E & R & T).
-  destruct (sfinish_log st _ l1 R T) as (fin & l2 & F & E2 & B & L).
+  destruct H as (st & e & l1 & H & E & R & Z & T).
+  destruct (sfinish_log st _ l1 R Z T) as (fin & l2 & F & E2 & B & L).
   exists st, e, fin. split; [exact H|]. split; [exact F|].
   apply (wf_closed_of_run _ l2); [rewrite (ev_run_app_some _ _ _ _ E); exact E2 | exact B | exact L].
 Qed.
